@@ -9,9 +9,10 @@ import importlib, json, os, sys
 sys.path.insert(0, "lib"); sys.path.insert(0, ".")
 import vcheck
 vcheck.coq_makefile()
+approved = set(open("tools/claimed.txt").read().split())
 t = ["theories/Base/Harness.vo"]
 for f in sorted(os.listdir("props")):
-    if f.startswith("c") and f.endswith(".py"):
+    if f.startswith("c") and f.endswith(".py") and f[:-3].upper() in approved:
         m = importlib.import_module("props." + f[:-3])
         if getattr(m, "MANIFEST", None) and hasattr(m, "PROP"):
             t += m.PROP["coq_targets"]
@@ -25,8 +26,9 @@ BINS=$(python3 - <<'PY'
 import importlib, os, sys
 sys.path.insert(0, "lib"); sys.path.insert(0, ".")
 b = []
+approved = set(open("tools/claimed.txt").read().split())
 for f in sorted(os.listdir("props")):
-    if f.startswith("c") and f.endswith(".py"):
+    if f.startswith("c") and f.endswith(".py") and f[:-3].upper() in approved:
         m = importlib.import_module("props." + f[:-3])
         if getattr(m, "MANIFEST", None):
             b.append("--bin " + (m.PROP.get("bin", f[:-3]) if hasattr(m, "PROP") else f[:-3]))
